@@ -247,6 +247,7 @@ var errTable = []struct{ sub, code string }{
 	{"Transaction has locked address inputs", "locked"},
 	{"invalid amount, too many decimal places", "decimals"},
 	{"Transaction output is sent to the null address", "null-address"},
+	{"transaction input not found in outputs bucket", "history-input-missing"},
 	{"save block failed", "save-block"},
 	{"save signature failed", "save-sig"},
 	{"twice into the unspent pool", "ux-twice"},
